@@ -679,6 +679,7 @@ func TestC16Child(t *testing.T) {
 	// cmd/kvass/coordinator.go or cmd/kvass/sidecar.go construct (whatever those constructors do to process-wide
 	// state is then part of the process that computes the hash)
 	hashIn := hashOf
+	roleDir := ""
 	switch os.Getenv("VERIF_C16_ROLE") {
 	case "coordinator":
 		lg := quiet
@@ -690,7 +691,7 @@ func TestC16Child(t *testing.T) {
 		_, _ = sm, td
 	case "sidecar":
 		dir, _ := ioutil.TempDir("", "c16role-")
-		defer os.RemoveAll(dir)
+		roleDir = dir
 		lg := quiet
 		cm := prom.NewConfigManager()
 		tm := sidecar.NewTargetsManager(dir, prometheus.NewRegistry(), lg)
@@ -717,6 +718,9 @@ func TestC16Child(t *testing.T) {
 	}
 	b, _ := json.Marshal(out)
 	fmt.Printf("CHILD-HASHES %s\n", b)
+	if roleDir != "" {
+		_ = os.RemoveAll(roleDir)
+	}
 	os.Exit(0)
 }
 
